@@ -223,6 +223,8 @@ class Exec:
                     return a.astype({"i4": np.int32, "i2": np.int16, "i1": np.int8, "u1": np.uint8, "u4": np.uint32}[sp])
                 return a
             ix = tuple(spell(a) for a in ix)
+            if sp == "bare" and len(ix) == 1:
+                ix = ix[0]             # x[arr] rather than x[(arr,)]
         return ix
 
     def run(self, s):
